@@ -67,7 +67,7 @@ func buildData(p Program) (map[string][]Rec, map[string]int) {
 		split := fmt.Sprintf("s%d", si)
 		ord := map[int]int{}
 		for i, k := range ks {
-			key := fmt.Sprintf("k%d", k%max(1, p.NKeys))
+			key := keyName(k % max(1, p.NKeys))
 			data[split] = append(data[split], Rec{Split: split, Idx: i, Key: key, Ord: ord[k%max(1, p.NKeys)]})
 			ord[k%max(1, p.NKeys)]++
 			totals[key+"/"+split]++
@@ -77,6 +77,19 @@ func buildData(p Program) (map[string][]Rec, map[string]int) {
 		}
 	}
 	return data, totals
+}
+
+// keyName: the subject keys of a cluster case. Key 0 is the empty byte string
+// (a legal key: it hashes to a key group like any other), key 1 a NUL byte (the
+// records travel as JSON, so the keys stay valid UTF-8).
+func keyName(i int) string {
+	switch i {
+	case 0:
+		return ""
+	case 1:
+		return "\x00"
+	}
+	return fmt.Sprintf("k%d", i)
 }
 
 const stallAfter = 15 * time.Second
@@ -923,7 +936,7 @@ func RunSavepoint(p Program, c *hx.Case) (st SPStats, err error) {
 				// Dead processes run no cleanups. Tables that were already obsolete
 				// before the stop are cleaned up now (their cleanups delete by name), not
 				// after the savepoint has copied files of the same names back into place.
-				time.Sleep(3 * time.Millisecond) // background flushes/compactions of the dead databases finish
+				w.QuiesceDBs() // background flushes/compactions of the dead databases finish
 				for i := 0; i < 3; i++ {
 					runtime.GC()
 					time.Sleep(200 * time.Microsecond)
@@ -1058,7 +1071,7 @@ func restoreFromSavepointDepth(p Program, c *hx.Case, fs *storage.MemoryFilesyst
 			w.Kill(n)
 		}
 		w.Close()
-		time.Sleep(3 * time.Millisecond)
+		w.QuiesceDBs()
 		for i := 0; i < 3; i++ {
 			runtime.GC()
 			time.Sleep(200 * time.Microsecond)
